@@ -9,7 +9,10 @@ import (
 	"github.com/EliCDavis/polyform/modeling"
 
 	"verif/harness/core"
+	"verif/harness/meshlib"
 )
+
+func meshlibHash(m modeling.Mesh) uint64 { return meshlib.QuickHash(m) }
 
 // ply.Save over an existing file: every sequence of 1..3 saves of three clouds/meshes of different
 // sizes to one path, in each encoding; the file must equal the in-memory write of the last.
@@ -68,6 +71,16 @@ func (k checker) saveSequences(next func() bool) {
 			k.afterFailedWrite(fi)
 		}
 	}
+	for fi := 0; fi < 3; fi++ {
+		if next() {
+			k.afterFailedRead(fi)
+		}
+		if next() {
+			k.loadAfterReplace(fi)
+		}
+	}
+	k.c.Bound("F.after_failed_read", "per encoding: ply.ReadMesh of three good files right after every cut / single-byte damage (600 positions) of a 40-face strip with normals and colours")
+	k.c.Bound("F.load_after_replace", "per encoding: ply.Load of a path whose file was replaced in place by another (five files, two of equal size; every ordered pair; modification time put back)")
 	k.c.Bound("F.save_sequences", "every sequence of 1..3 ply.Save calls over a 9-face strip, a 4-point cloud and a textured triangle to one path, in each encoding; the file must equal the in-memory write of the last")
 }
 
@@ -86,6 +99,76 @@ func (k checker) afterFailedWrite(fi int) {
 	if why != "" {
 		k.c.Eval(scope, "mismatch")
 		k.c.Violate(core.Violation{Site: "ply.Write", Clause: "writing a mesh yields exactly the bytes of that mesh (also right after an earlier write failed)", Class: "after-failed-write/" + names[fi], Detail: why, Case: cs})
+		return
+	}
+	k.c.Eval(scope, "ok")
+}
+
+func plyBytes(cfg MeshCfg, f ply.Format) []byte {
+	var b bytes.Buffer
+	if err := ply.Write(&b, cfg.resolved().Build(), f); err != nil {
+		return nil
+	}
+	return b.Bytes()
+}
+
+func histCfgs() []MeshCfg {
+	return []MeshCfg{
+		{Gen: "strip", N: 40, Attrs: []AttrCfg{{"Position", 3, "gen"}, {"Normal", 3, "gen"}, {"Color", 3, "unit"}}},
+		{Topo: "tri", V: 3, Idx: []int{0, 1, 2}, Attrs: []AttrCfg{{"Position", 3, "gen"}, {"TexCoord", 2, "gen"}}},
+		{Gen: "cloud", N: 6, Attrs: []AttrCfg{{"Position", 3, "gen"}}},
+		{Gen: "strip", N: 7, Attrs: []AttrCfg{{"Position", 3, "gen"}, {"Normal", 3, "gen"}}},
+		{Gen: "cloud", N: 6, Attrs: []AttrCfg{{"Position", 3, "unit"}}},
+	}
+}
+
+// a read after a failed read (core.AfterFailedRead), per encoding
+func (k checker) afterFailedRead(fi int) {
+	formats := []ply.Format{ply.ASCII, ply.BinaryLittleEndian, ply.BinaryBigEndian}
+	names := []string{"ascii", "binary_little_endian", "binary_big_endian"}
+	cs := Case{Scope: "after-failed-read", SaveFormat: -(fi + 11)}
+	cf := histCfgs()
+	k.c.Nontrivial("after-failed-read", fi)
+	bad := core.BadInputs(plyBytes(cf[0], formats[fi]), 600)
+	read := func(data []byte) (string, error) {
+		m, err := ply.ReadMesh(bytes.NewReader(data))
+		if err != nil || m == nil {
+			return "", err
+		}
+		return fmt.Sprintf("%x", meshlibHash(*m)), nil
+	}
+	scope := "files/after-failed-read/" + names[fi]
+	for _, g := range cf[1:4] {
+		if why := core.AfterFailedRead(bad, plyBytes(g, formats[fi]), read); why != "" {
+			k.c.Eval(scope, "mismatch")
+			k.c.Violate(core.Violation{Site: "ply.ReadMesh", Clause: "reading back yields the same mesh (also right after an earlier read failed)", Class: "after-failed-read/" + names[fi], Detail: why, Case: cs})
+			return
+		}
+	}
+	k.c.Eval(scope, "ok")
+}
+
+// a load after the file was replaced (core.LoadAfterReplace), per encoding
+func (k checker) loadAfterReplace(fi int) {
+	formats := []ply.Format{ply.ASCII, ply.BinaryLittleEndian, ply.BinaryBigEndian}
+	names := []string{"ascii", "binary_little_endian", "binary_big_endian"}
+	cs := Case{Scope: "load-after-replace", SaveFormat: -(fi + 21)}
+	k.c.Nontrivial("load-after-replace", fi)
+	var files [][]byte
+	for _, g := range histCfgs() {
+		files = append(files, plyBytes(g, formats[fi]))
+	}
+	why := core.LoadAfterReplace(".ply", files, func(path string) (string, error) {
+		m, err := ply.Load(path)
+		if err != nil || m == nil {
+			return "", err
+		}
+		return fmt.Sprintf("%x", meshlibHash(*m)), nil
+	})
+	scope := "files/load-after-replace/" + names[fi]
+	if why != "" {
+		k.c.Eval(scope, "mismatch")
+		k.c.Violate(core.Violation{Site: "ply.Load", Clause: "loading a path yields the mesh of the file it holds now", Class: "load-after-replace/" + names[fi], Detail: why, Case: cs})
 		return
 	}
 	k.c.Eval(scope, "ok")
